@@ -1,6 +1,9 @@
 package main
 
-import "fmt"
+import (
+	"fmt"
+	"sort"
+)
 
 // Profiles: a workload mix (step-kind weights and fault probabilities) plus the way the
 // configuration is drawn. Every property has a home profile; thorough runs also run the other
@@ -150,7 +153,13 @@ func drawConfig(profile string, tier string, r *Rand) Config {
 	}
 	c.Weights = map[string]float64{}
 	c.FaultFree = r.Chance(0.15)
-	for k, v := range base {
+	keys := make([]string, 0, len(base))
+	for k := range base {
+		keys = append(keys, k)
+	}
+	sort.Strings(keys)
+	for _, k := range keys {
+		v := base[k]
 		if isModifier(k) {
 			if c.FaultFree {
 				continue
